@@ -138,6 +138,29 @@ void harness(void)
 		}
 		V_COVER("tree cloned", cp != 0);
 	}
+#elif defined(UNIT_MOVE)
+	{
+		/* merge the root's children into a second tree (mpt_node_move): a source child whose name is not in the
+		 * target moves over completely; for a namesake the source's grandchildren are merged / re-parented.  Afterwards
+		 * both trees are well formed, no node is reachable from two places, nothing is lost, and releasing both trees
+		 * releases every node exactly once. */
+		node_t *dst = mk('R'), *d0 = mk('a'), *d1 = mk(in_name); size_t moved; int sa, da;
+		mpt_gnode_insert(dst, 0, d0); mpt_gnode_insert(dst, 0, d1);          /* target: R -> { a, <name> }, no grandchildren */
+		moved = mpt_node_move(&root->children, dst->children);
+		sa = wf_tree2(root); da = wf_tree2(dst);
+		V_CHECK("move: both trees stay well formed", sa >= 1 && da >= 3);
+		V_CHECK("move: no node is lost or duplicated", sa + da == before + 3);
+		V_CHECK("move: grandchildren handed to the namesake are no longer reachable from the source", IMP(in_nc >= 1 && in_ng >= 1 && d0->children == g[0], c[0]->children == 0));
+		V_CHECK("move: re-parented grandchildren name their new parent", IMP(in_ng >= 1 && d0->children == g[0], g[0]->parent == d0 && IMP(in_ng >= 2, g[1]->parent == d0)));
+		V_CHECK("move: children without namesake are moved over completely", IMP(in_nc >= 3, c[2]->parent == dst) && IMP(in_nc >= 2 && in_name != 'b', c[1]->parent == dst));
+#if NG >= 1
+		V_COVER("grandchildren re-parented", in_ng >= 1 && d0->children == g[0]);
+#else
+		V_COVER("child without namesake moved over", in_nc >= 1 && c[0]->parent == dst);
+#endif
+		V_CHECK("destroy: the target tree is released with everything below", mpt_node_destroy(dst) == 0);
+		(void) moved;
+	}
 #elif defined(UNIT_UNLINK)
 	{
 		/* unlink any node of the tree, then destroy it separately */
